@@ -246,3 +246,61 @@ def call_value(ctx, call: ast.Call, fn) -> Optional[ast.AST]:
         vals.add(show(t))
         term = t
     return term if len(vals) == 1 else None
+
+
+def generator_shape(ctx, gen_fn) -> Optional[Collect]:
+    """Shape of a simple generator `for e in xs: if c(e): yield v(e)` (one-iteration path)."""
+    for p in ctx.paths(gen_fn, inline=None, exc_edges="none", unroll=1):
+        evs = p.events
+        its = [e for e in evs if e.kind == "iter" and e.x.get("loop") == "for"]
+        ys = [e for e in evs if e.kind == "yield" and not e.x.get("from")]
+        if len(its) != 1 or len(ys) != 1:
+            continue
+        it, y = its[0], ys[0]
+        elem = show(it.x["elem"])
+        filters = [(_elem_norm(show(expand1(b.term, evs)), elem), b.x["taken"]) for b in evs[it.idx: y.idx] if b.kind == "branch"]
+        return Collect(show(it.term), filters, _elem_norm(show(expand1(y.term, evs)), elem), "generator")
+    return None
+
+
+def compose_source(ctx, c: Collect, fn) -> Collect:
+    """If the collection iterates a call to a package generator helper, look through it."""
+    try:
+        src = ast.parse(c.source, mode="eval").body
+    except SyntaxError:
+        return c
+    if not isinstance(src, ast.Call):
+        return c
+    res = ctx.r.resolve_in(src, fn)
+    if res.how != "typed" or len(res.targets) != 1:
+        return c
+    g = generator_shape(ctx, res.targets[0])
+    if g is None or g.value != "ELEM":
+        return c
+    # parameters of the helper are passed through unchanged in the cases this is used for (*args, **kwargs)
+    return Collect(g.source, g.filters + c.filters, c.value, c.form + "+generator", {**c.extra, "through": res.targets[0].qualname})
+
+
+def executor_collect(ctx, fn) -> List[Collect]:
+    """All collection shapes by which `fn` gathers per-callback values: returned comprehension, gather(*comp), append loop."""
+    out: List[Collect] = []
+    for p in ctx.paths(fn, exc_edges="none", unroll=1):
+        if p.kind != "return":
+            continue
+        v = expand(p.value, p.events)
+        c = None
+        if isinstance(v, (ast.ListComp, ast.GeneratorExp)):
+            c = collect_from_comp(v)
+        elif isinstance(v, ast.Call) and v.args and isinstance(v.args[0], ast.Starred) and isinstance(v.args[0].value, (ast.GeneratorExp, ast.ListComp)):
+            c = collect_from_comp(v.args[0].value)
+            if c is not None:
+                c.extra["wrapper"] = show(v.func)
+                c.extra["wrapper_kwargs"] = [kw.arg for kw in v.keywords]
+                calls = [e for e in p.calls() if show(e.term.func) == show(v.func)]
+                c.extra["awaited"] = bool(calls and calls[0].x.get("awaited"))
+        else:
+            c = collect_from_loop(p)
+        if c is not None:
+            out.append(compose_source(ctx, c, fn))
+    return out
+
